@@ -105,16 +105,6 @@ theorem lost_nosend (cfg : Cfg) (s : St) (e : Ev) (hi : Inv cfg s) (hl : s.lost 
   · simp [hs] at h1
 end Srv
 
-namespace Srv.Flow
-theorem pump_frame (s : FSt) : (pump s).all = s.all ∧ (pump s).lost = s.lost ∧ (pump s).started = s.started := by
-  unfold pump
-  split
-  · exact ⟨rfl, rfl, rfl⟩
-  · split
-    · exact ⟨rfl, rfl, rfl⟩
-    · split <;> exact ⟨rfl, rfl, rfl⟩
-end Srv.Flow
-
 namespace Srv.Sys
 open Srv Srv.Flow
 
